@@ -1,0 +1,230 @@
+// Copyright 2017 The Wuffs Authors.
+//
+// SPDX-License-Identifier: Apache-2.0 OR MIT
+
+//go:build verif
+// +build verif
+
+package cgen
+
+// The "checked build" hook. With the "verif" build tag AND the environment
+// variable WUFFS_VERIF containing "ranges", the generator wraps every index,
+// slice and non-modular arithmetic expression in a call to a run-time
+// assertion (wuffs_verif__*, defined by a header that the monitor force
+// includes) which checks the obligation the Wuffs checker is supposed to have
+// proven at compile time. Without the environment variable the emitted C is
+// byte-identical to the untagged build.
+
+import (
+	"fmt"
+	"math/big"
+	"os"
+	"strings"
+
+	a "github.com/google/wuffs/lang/ast"
+	t "github.com/google/wuffs/lang/token"
+)
+
+var (
+	verifRanges = strings.Contains(os.Getenv("WUFFS_VERIF"), "ranges")
+	verifLoc    = "?"
+	verifBusy   = false
+)
+
+func (g *gen) verifSetLoc(n *a.Node) {
+	if !verifRanges {
+		return
+	}
+	filename, line := n.AsRaw().FilenameLine()
+	if i := strings.LastIndex(filename, "/std/"); i >= 0 {
+		filename = filename[i+1:]
+	} else if i := strings.LastIndexByte(filename, '/'); i >= 0 {
+		filename = filename[i+1:]
+	}
+	verifLoc = fmt.Sprintf("%s:%d", filename, line)
+}
+
+func (g *gen) verifIndexPre(b *buffer, n *a.Expr) {
+	if verifRanges {
+		b.writes("wuffs_verif__idx(")
+	}
+}
+
+func (g *gen) verifIndexPost(b *buffer, n *a.Expr, depth uint32) error {
+	if !verifRanges {
+		return nil
+	}
+	lhs := n.LHS().AsExpr()
+	b.writes(", ")
+	if lTyp := lhs.MType(); lTyp.IsEitherSliceType() {
+		b.writes("(uint64_t)(")
+		if err := g.writeExpr(b, lhs, false, depth); err != nil {
+			return err
+		}
+		b.writes(".len)")
+	} else if lTyp.IsEitherArrayType() {
+		b.writes(lTyp.ArrayLength().ConstValue().String())
+		b.writes("u")
+	} else {
+		b.writes("UINT64_MAX")
+	}
+	b.printf(", \"%s\")", verifLoc)
+	return nil
+}
+
+func (g *gen) verifSlice(b *buffer, n *a.Expr, depth uint32) (bool, error) {
+	if !verifRanges || verifBusy {
+		return false, nil
+	}
+	lhs := n.LHS().AsExpr()
+	mhs := n.MHS().AsExpr()
+	rhs := n.RHS().AsExpr()
+	if mhs == nil && rhs == nil {
+		return false, nil
+	}
+	b.writes("(wuffs_verif__slice(")
+	if mhs == nil {
+		b.writes("0u")
+	} else if err := g.writeExpr(b, mhs, false, depth); err != nil {
+		return true, err
+	}
+	b.writes(", ")
+	writeLen := func() error {
+		if lhs.MType().IsEitherArrayType() {
+			b.writes(lhs.MType().ArrayLength().ConstValue().String())
+			b.writes("u")
+			return nil
+		}
+		b.writes("(uint64_t)(")
+		if err := g.writeExpr(b, lhs, false, depth); err != nil {
+			return err
+		}
+		b.writes(".len)")
+		return nil
+	}
+	if rhs == nil {
+		if err := writeLen(); err != nil {
+			return true, err
+		}
+	} else if err := g.writeExpr(b, rhs, false, depth); err != nil {
+		return true, err
+	}
+	b.writes(", ")
+	if err := writeLen(); err != nil {
+		return true, err
+	}
+	b.printf(", \"%s\"), ", verifLoc)
+	verifBusy = true
+	err := g.writeExprOther(b, n, false, depth)
+	verifBusy = false
+	b.writes(")")
+	return true, err
+}
+
+// verifTypeBounds returns the (possibly refined) bounds of a numeric type.
+func verifTypeBounds(typ *a.TypeExpr) (min *big.Int, max *big.Int, ok bool) {
+	if typ == nil || !typ.IsNumType() {
+		return nil, nil, false
+	}
+	bits := uintBits(typ.QID())
+	if bits == 0 {
+		return nil, nil, false
+	}
+	min = big.NewInt(0)
+	max = big.NewInt(1)
+	max.Lsh(max, uint(bits))
+	max.Sub(max, big.NewInt(1))
+	if x := typ.Min(); x != nil {
+		if cv := x.ConstValue(); cv != nil {
+			min = cv
+		}
+	}
+	if x := typ.Max(); x != nil {
+		if cv := x.ConstValue(); cv != nil {
+			max = cv
+		}
+	}
+	return min, max, true
+}
+
+func (g *gen) verifBinaryOp(b *buffer, n *a.Expr, depth uint32) (bool, error) {
+	if !verifRanges || n.ConstValue() != nil {
+		return false, nil
+	}
+	fn := ""
+	switch n.Operator() {
+	case t.IDXBinaryPlus:
+		fn = "add"
+	case t.IDXBinaryMinus:
+		fn = "sub"
+	case t.IDXBinaryStar:
+		fn = "mul"
+	case t.IDXBinaryShiftL:
+		fn = "shl"
+	case t.IDXBinaryShiftR:
+		fn = "shr"
+	case t.IDXBinarySlash:
+		fn = "div"
+	case t.IDXBinaryPercent:
+		fn = "rem"
+	default:
+		return false, nil
+	}
+	min, max, ok := verifTypeBounds(n.MType())
+	if !ok {
+		return false, nil
+	}
+	lbits := uint32(64)
+	if lt := n.LHS().AsExpr().MType(); lt != nil && lt.IsNumType() {
+		if ub := uintBits(lt.QID()); ub != 0 {
+			lbits = ub
+		}
+	}
+	b.writes("((")
+	if err := g.writeCTypeName(b, n.MType(), "", ""); err != nil {
+		return true, err
+	}
+	b.printf(")wuffs_verif__%s(", fn)
+	if err := g.writeExpr(b, n.LHS().AsExpr(), false, depth); err != nil {
+		return true, err
+	}
+	b.writes(", ")
+	if err := g.writeExpr(b, n.RHS().AsExpr(), false, depth); err != nil {
+		return true, err
+	}
+	b.printf(", %su, %su, %du, \"%s\"))", min.String(), max.String(), lbits, verifLoc)
+	return true, nil
+}
+
+func (g *gen) verifAssociativeOp(b *buffer, n *a.Expr, depth uint32) (bool, error) {
+	if !verifRanges || n.ConstValue() != nil {
+		return false, nil
+	}
+	fn := ""
+	switch n.Operator() {
+	case t.IDXAssociativePlus:
+		fn = "add_n"
+	case t.IDXAssociativeStar:
+		fn = "mul_n"
+	default:
+		return false, nil
+	}
+	min, max, ok := verifTypeBounds(n.MType())
+	if !ok {
+		return false, nil
+	}
+	b.writes("((")
+	if err := g.writeCTypeName(b, n.MType(), "", ""); err != nil {
+		return true, err
+	}
+	b.printf(")wuffs_verif__%s(%su, %su, \"%s\", %d", fn, min.String(), max.String(), verifLoc, len(n.Args()))
+	for _, o := range n.Args() {
+		b.writes(", (uint64_t)(")
+		if err := g.writeExpr(b, o.AsExpr(), false, depth); err != nil {
+			return true, err
+		}
+		b.writes(")")
+	}
+	b.writes("))")
+	return true, nil
+}
